@@ -1,4 +1,5 @@
 import VyxalModel.Lemmas.Compile3
+import VyxalModel.Lemmas.FragToks
 import VyxalModel.Gen.Elements
 import VyxalModel.Gen.Modifiers
 /-!
@@ -112,6 +113,22 @@ theorem compile_correct (cfg : Cfg) (env : TEnv) (hE : cfg.elements = env.elemen
       | brk => simp at hr
       | cont => simp at hr
       | ret v => simp at hr
+
+/-- the map / filter / sort-by elements behind `ƛ ' µ` are covered in the regenerated table -/
+theorem lamop_tokens_covered : ∀ k, fragTok Gen.elements ⟨.general, lamOpKey k⟩ = true := by
+  intro k; cases k <;> decide +kernel
+
+/-- **C01, from the source text**: for *every* source string whose lexed tokens are covered element tokens, integer
+    literals or variables — no condition on how they are arranged —: if it parses, transpiles, and the reference semantics
+    runs it to an observation, the Python semantics of the transpiled program yields the same observation. -/
+theorem compile_correct_source (cfg : Cfg) (env : TEnv) (hE : cfg.elements = env.elements) (hM : ModsOK env.modifiers)
+    (hlo : ∀ k, fragTok env.elements ⟨.general, lamOpKey k⟩ = true)
+    (src : Str) (htok : ∀ t ∈ tokenise src, fragTok env.elements t = true)
+    (prog : List Structure) (hp : parseTop (tokenise src) = .ok prog) (code : List PyStmt)
+    (ht : transpileAst env prog = .ok code) (fuel : Nat) (flags : String) (inputs : List Val)
+    (obs : List Val × String) (hr : refProgram cfg fuel flags inputs prog = .ok obs) :
+    pyProgram cfg fuel flags inputs code = .ok obs :=
+  compile_correct cfg env hE hM prog (frag_of_tokens env.elements hlo (tokenise src) htok prog hp) code ht fuel flags inputs obs hr
 
 /-- the fragment is not empty: `3(n2%[+|-X]:,){←a|←a‹→a}λ2|+[X];†ƛnd;` — `n`, a dyad, an `if` with a break inside a
     `for`, duplicate and print, a `while` on a variable, a lambda with an early return called at once, a map lambda, a list literal `⟨1|:+|⟩`, a function `@f:1:x|←x+;` and its call `@f;`, the modifiers `v+`, `&‹`, `ƒ+`, `₌d‹`, `ßd`, `~λ2|+;` -/
